@@ -263,7 +263,8 @@ func (wk *Worker) runJob(job *Job) *JobResult {
 		switch out.kind {
 		case "ok", "assertfalse":
 			res.Paths++
-			if out.kind == "ok" && !job.NoValidate && !in.orderDev && (validated < wk.cfg.ValidateCap || len(res.Samples) < 2) {
+			canValidate := !job.NoValidate && !in.orderDev
+			if out.kind == "ok" && ((canValidate && validated < wk.cfg.ValidateCap) || len(res.Samples) < 2) {
 				func() {
 					defer func() {
 						if r := recover(); r != nil {
@@ -276,7 +277,7 @@ func (wk *Worker) runJob(job *Job) *JobResult {
 					}()
 					m := ex.Model()
 					c := ReplayCase{Fn: job.Fn, Args: job.Args, Model: m, Outcome: "ok", Emits: renderEmits(in.emits, m)}
-					if validated < wk.cfg.ValidateCap {
+					if canValidate && validated < wk.cfg.ValidateCap {
 						res.Validate = append(res.Validate, c)
 						validated++
 					}
